@@ -59,6 +59,12 @@ def miri(prop, case, seeds=None, seed=None):
     if m and s is not None and ("deadlock" in m.group(1) or "Undefined Behavior" in m.group(1) or "data race" in out.lower()):
         kind = "deadlock" if "deadlock" in m.group(1) else ("data-race" if "data race" in out.lower() else "undefined-behaviour")
         return held, (s, "miri-" + kind, "-", m.group(1).strip()), None
+    # a panic in the code under test (a thread of the case panicked)
+    pm = re.search(r"panicked at ([^\n]*)", out)
+    if pm and s is not None:
+        where = re.sub(r"^.*?/crates/", "crates/", pm.group(1).strip()).rstrip(":")
+        msg = out[pm.end():].strip().splitlines()[0] if out[pm.end():].strip() else ""
+        return held, (s, "panic", re.sub(r":\d+$", "", where), f"panicked at {where}: {msg}"[:300]), None
     if re.search(r"could not compile|error\[E\d+\]", out):
         return held, None, "build of the thread-interleaving engine (with /repo's current tree) failed:\n" + "\n".join(l for l in out.splitlines() if l.startswith("error"))[:2000]
     if m and s is not None:
